@@ -257,7 +257,25 @@ func runRepVal(hdr Header, c any, src string) CaseResult {
 			}
 		}
 		res.Evals++
-		verr := rs.Validate(built[j])
+		var verr error
+		if pmsg := func() (msg string) {
+			defer func() {
+				if r := recover(); r != nil {
+					msg = fmt.Sprint(r)
+				}
+			}()
+			verr = rs.Validate(built[j])
+			return ""
+		}(); pmsg != "" {
+			res.Failures = append(res.Failures, Failure{Kind: "panic", Source: src, Abstract: []any{cm["s"], vs[j]},
+				Concrete: map[string]any{"schema": json.RawMessage(text), "instance": describe(built[j]), "denotes": json.RawMessage(abs.DenJSON(vs[j]))},
+				Expected: "Validate returns, with nil or an error", Got: "panic: " + pmsg,
+				Replay: map[string]any{"hdr": map[string]any{"VS": []any{vs[j]}}, "case": map[string]any{"s": cm["s"], "exp": []any{e}}}})
+			if len(res.Failures) >= 4 {
+				break
+			}
+			continue
+		}
 		if want {
 			sawT = true
 		} else {
